@@ -166,7 +166,8 @@ def _path_equations(events):
             continue
         c, v = e[1], e[2]
         inner = None
-        if c[0] == "call" and c[1] == "Result<T, E>::is_ok" and guards.truth(v) is True and c[3]:
+        if c[0] == "call" and c[3] and ((c[1] == "Result<T, E>::is_ok" and guards.truth(v) is True) or
+                                          (c[1] == "Result<T, E>::is_err" and guards.truth(v) is False)):
             inner = mir.strip_refs(c[3][0])
         elif c[0] == "discr":
             from .. import walk as W
